@@ -19,6 +19,7 @@
 #include <openssl/core_names.h>
 #include <stdarg.h>
 #include <unistd.h>
+#include <fcntl.h>
 #include <signal.h>
 #include <errno.h>
 #include <limits.h>
